@@ -367,8 +367,61 @@ func (g *ppGen) query(d int) {
 	}
 }
 
+func (g *ppGen) constTerm(d int) {
+	switch {
+	case d > 0 && g.chance(25):
+		g.constObj(d - 1)
+	case d > 0 && g.chance(25):
+		g.e("[")
+		for i, k := 0, g.r.Intn(3); i < k; i++ {
+			if i > 0 {
+				g.e(",")
+			}
+			g.constTerm(d - 1)
+		}
+		g.e("]")
+	default:
+		g.e(g.pick([]string{"1", "0x1f", `"s"`, `""`, "null", "true", "false", "1.5"}))
+	}
+}
+
+func (g *ppGen) constObj(d int) {
+	g.e("{")
+	for i, k := 0, g.r.Intn(3); i < k; i++ {
+		if i > 0 {
+			g.e(",")
+		}
+		g.e(g.pick([]string{"a", "search", "if", "and", `"k"`, `""`, "module"}), ":")
+		g.constTerm(d)
+	}
+	g.e("}")
+}
+
+// module / import / include directives (parser.go.y:56-100)
+func (g *ppGen) directives() {
+	if g.chance(50) {
+		g.e("module")
+		g.constObj(2)
+		g.e(";")
+	}
+	for i := g.r.Intn(3); i > 0; i-- {
+		if g.chance(50) {
+			g.e("import", g.pick([]string{`"a"`, `"lib/b"`, `"x"`}), "as", g.pick([]string{"foo", "$data", "m"}))
+		} else {
+			g.e("include", g.pick([]string{`"a"`, `"c"`}))
+		}
+		if g.chance(40) {
+			g.constObj(1)
+		}
+		g.e(";")
+	}
+}
+
 func genPP(r *hlib.Rand) []string {
 	g := &ppGen{r: r, n: 4 + r.Intn(36)}
+	if g.chance(10) {
+		g.directives()
+	}
 	g.query(1 + r.Intn(4))
 	toks := g.toks
 	// damage some sequences: the parsers must agree on rejection too
@@ -520,12 +573,7 @@ func ppOutsideCore(toks []string) bool {
 				return true
 			}
 		}
-		// keywords that only make sense in directives
-		if t == "import" || t == "include" || t == "module" {
-			if !(i+1 < len(toks) && toks[i+1] == ":") && !(i > 0 && (toks[i-1] == "{" || toks[i-1] == ",")) {
-				return true
-			}
-		}
+		// a trailing comma in a constant object too (handled by the `, }` rule above)
 	}
 	return false
 }
@@ -591,6 +639,10 @@ var ppFixed = []string{
 	"{ $__loc__ }", "{ a : . as [ $x ] | 1 }", "{ a : ( . as $x | 1 ) }", "{ \"a\" : 1 , }", "{ , }", "{ a b }", "{ 1 : 2 }",
 	"0x1f + 0o17 * 0b101 - 0x1_000", "1.5 / .5 % 1e3", "null , true , false", "$__loc__ , $ENV .a",
 	"a ? // b", "a ?// b", "a as $x ?// $y | b",
+	"module { } ; a", "module { a : 1 , \"b\" : [ 1 , \"x\" , null , { if : true } ] } ; import \"a\" as foo ; include \"b\" { search : \"./\" } ; import \"c\" as $d { } ; foo::f | a",
+	"import \"a\" as foo ; a", "include \"a\" ; a", "import \"a\" as $d { x : 1 } ; $d", "include \"a\" { } ; include \"b\" ; a",
+	"module { } ; module { } ; a", "import \"a\" ; a", "import \"a\" as 1 ; a", "include \"a\" as foo ; a", "module [ ] ; a", "module { a : b } ; a",
+	"a ; import \"a\" as foo ; b", "import \"a\" as foo a", "module { a : - 1 } ; a", "module { $x : 1 } ; a", "include S< \\( 1 ) >S ; a",
 }
 
 func (rn *runner) ppAll(r *hlib.Rand, n int) {
